@@ -18,14 +18,14 @@ SPKI_STUBS = ["typed size-class allocator behind lrtr_malloc/lrtr_realloc/lrtr_f
               "pthread_rwlock_*: sequential ghost-state model", "hook RTRLIB_VERIF_HASHLIN_BIT=1 (2 initial buckets) unless 'unscaled'"]
 
 
-def spki_job(seq, scaled=True, timeout=900, extra=None, prop=None, name_prefix="hist_", weight=1):
+def spki_job(seq, scaled=True, timeout=900, extra=None, prop=None, name_prefix="hist_", weight=1, mem=12):
     n = len(seq)
     d = ["OPS=" + ",".join(str(x) for x in seq)] + (["RTRLIB_VERIF_HASHLIN_BIT=1"] if scaled else []) + (extra or [])
     us = dict([("harness.%d" % i, 100) for i in range(24)] + [("nd_key.0", 100), ("nd_key.1", 100), ("memcmp.0", 100),
               ("lrtr_calloc.0", 70), ("memset.0", 100), ("memcpy.0", 142), ("vl_slot.0", 6), ("vl_slot.1", 6)])
     return core.Job(
         name=name_prefix + "".join(NM[x] for x in seq) + ("" if scaled else "_unscaled"), harness="spki_ops.c", entry="harness",
-        defines=d, unwind=n + 3, unwindset=us, timeout=timeout, mem_gb=12, sources=SPKI_SOURCES, object_bits=11, weight=weight, solver=['--sat-solver', 'cadical'],
+        defines=d, unwind=n + 3, unwindset=us, timeout=timeout, mem_gb=mem, sources=SPKI_SOURCES, object_bits=11, weight=weight, solver=['--sat-solver', 'cadical'],
         desc="real ht-spkitable.c + tommyhashlin/tommylist: history [%s] from the empty table (A add, R remove, S remove-by-"
              "source, L reload=copy_except+swap+free); every key symbolic (32-bit AS, SKI/SPKI byte 0, 2 sources); final "
              "get_all/search_by_ski for an arbitrary (AS, SKI)" % "".join(NM[x] for x in seq),
@@ -35,13 +35,12 @@ def spki_job(seq, scaled=True, timeout=900, extra=None, prop=None, name_prefix="
 
 def jobs(tier):
     J = []
-    for n in (1, 2, 3):
-        for seq in itertools.product((1, 2, 3), repeat=n):
-            if seq[0] != 1 and n > 1:
-                continue  # histories that start on the empty table with a removal add nothing beyond length 1
-            J.append(spki_job(list(seq)))
-    J += [spki_job([1, 1, 4]), spki_job([1, 4, 1]), spki_job([1, 1, 1], scaled=False)]
+    quick = [[1], [2], [3], [1, 1], [1, 2], [1, 3]]
+    for seq in quick:
+        J.append(spki_job(seq, weight=3 if len(seq) > 1 else 1, timeout=1500))
     if tier == "thorough":
-        J += [spki_job(s, timeout=3000, weight=2) for s in ([1, 1, 1, 1], [1, 1, 1, 2], [1, 1, 2, 2], [1, 1, 3, 1], [1, 1, 1, 3],
-                                                             [1, 1, 4, 1], [1, 1, 1, 1, 1], [1, 1, 1, 2, 2])]
+        three = [list(s) for s in itertools.product((1, 2, 3), repeat=3) if s[0] == 1]
+        J += [spki_job(s, timeout=5400, weight=5, mem=28) for s in three]
+        J += [spki_job(s, timeout=5400, weight=5, mem=28) for s in ([1, 1, 4], [1, 4, 1], [1, 1, 1, 1], [1, 1, 1, 2], [1, 1, 2, 2])]
+        J += [spki_job([1, 1, 1], scaled=False, timeout=5400, weight=5, mem=28)]
     return J
